@@ -226,13 +226,14 @@ def _named(variant, name):
     return env['named'][key]
 
 
-def _mk_res(st, warnings_none=False, model=None):
+def _mk_res(st, warnings_none=False):
     import pandas as pd
     from pharmpy.workflows.results import ModelfitResults
 
-    pe = None
-    if model is not None:
-        pe = pd.Series({p.name: p.init for p in model.parameters if not p.fix})
+    env = _rank_env()
+    pe = env.get('pe')
+    if pe is None:
+        pe = env['pe'] = pd.Series({p.name: p.init for p in env['variants']['pheno'].parameters})
     return ModelfitResults(
         ofv=st['ofv'], minimization_successful=st['ms'], termination_cause=st['tc'],
         significant_digits=st['sd'], warnings=None if warnings_none else [],
@@ -357,7 +358,11 @@ def _rank_call(inp):
     if inp.get('parents') is not None:
         if inp.get('parent_keys') == 'model':
             parent_dict = {models[i]: allm[p] for i, p in enumerate(inp['parents'])}
-        else:
+            if len(parent_dict) != len(models):
+                # two candidates that differ only by name compare equal as Model objects, so a dict
+                # keyed by Model cannot hold both: such a map can only be given by name
+                parent_dict = None
+        if parent_dict is None:
             parent_dict = {models[i].name: allm[p].name for i, p in enumerate(inp['parents'])}
         kwargs['parent_dict'] = parent_dict
     if inp.get('bic_type') is not None:
@@ -429,8 +434,8 @@ def _rank_check(inp):
     names = [r['name'] for r in ref]
     if list(out.columns) != [f'd{cname}', cname, 'rank'] or sorted(out.index) != sorted(names):
         return fails + [(C_R_SHAPE, f'columns {list(out.columns)} index {list(out.index)}')]
-    got = {n: dict(delta=float(out.loc[n, f'd{cname}']), value=float(out.loc[n, cname]),
-                   rank=float(out.loc[n, 'rank'])) for n in names}
+    got = {n: dict(delta=float(d), value=float(v), rank=float(r))
+           for n, (d, v, r) in zip(list(out.index), out.values.tolist())}
 
     def add(clause, detail):
         if special:
@@ -467,7 +472,7 @@ def _rank_check(inp):
         if min(ranks) != 1 or any(x != int(x) or x < 1 or x > len(ranks) for x in ranks):
             add(C_R_ORDER, f'ranks {ranks} are not positive integers starting at 1')
     # row order
-    rowranks = [float(x) for x in out['rank'].tolist()]
+    rowranks = [got[n]['rank'] for n in out.index]
     seen_nan = False
     prev = 0
     for x in rowranks:
@@ -567,9 +572,8 @@ def _rank_domain(tier):
             cands = [list(c) for c in cands]
             for pm in itertools.product(*[range(0, i + 1) for i in range(n)]):
                 for b in range(nst):
-                    for cutoff in (None, 0.05):
-                        dom.append(dict(base=b, cands=cands, rank_type='lrt', cutoff=cutoff, penalties=None,
-                                        parents=list(pm)))
+                    dom.append(dict(base=b, cands=cands, rank_type='lrt', cutoff=None, penalties=None,
+                                    parents=list(pm)))
     # (f) strictness expressions (incl. '' and the AMD default) with all 6 statuses, <= 2 candidates,
     #     parent maps keyed by Model objects
     opts6 = [(v, s) for v in ('same', 'add1') for s in range(6)]
@@ -1065,7 +1069,7 @@ def bounded_rank_models(tier):
     bound = (f'rank_models: base (pheno, 5 result statuses: OFV -10/0/5/NaN ok, -10 failed) + all multisets of <= {kmax} '
              f'candidates from 5 pheno variants (parameter-count differences -1,0,0,+1,+2) x 5 statuses for ofv/aic, '
              f'<= {kmax - 1} for bic fixed/random/iiv/mixed, cut-off None/3.84, penalties None/list; lrt: all ordered '
-             f'<= 2 candidates x every parent map x p None/0.05/(0.05,0.01), multisets of 3..{kmax} with chained parents; '
+             f'<= 2 candidates x every parent map x p None/0.05/(0.05,0.01), multisets of 3..{kmax} candidates x every parent-among-earlier map (default p-values); '
              f'strictness ""/AMD default with 6 statuses; calculate_aic/bic on 10 variants x 3 OFVs; lrt functions on all '
              f'25 parent/child pairs x 3 alphas x 25 OFV pairs, best_of_many <= {3 if tier == "thorough" else 2} children '
              f'x 5 OFVs each; is_strictness_fulfilled: all 17 documented atoms x 6 operators on synthetic results grids')
